@@ -190,7 +190,22 @@ DEP_OPS = {
     "eq": lambda d: (d == d, d == copy.copy(d)),
     "in-tree-render": lambda d: __import__("htmltools").Tag("div", d).render()["html"],
     "doc-render": lambda d: _res(__import__("htmltools").HTMLDocument(d).render()),
+    # the mapping source_path_map() returns is the caller's: changing it must not reach this or ANY other dependency
+    # (as_dict() hands out the dependency's own meta list and as_html_tags() its own head tags; the statement does not
+    # promise otherwise, so their results are left alone)
+    "source_path_map+change-the-result": lambda d: _mutate_result(d, "source_path_map"),
 }
+
+
+def _mutate_result(d, what):
+    if what == "source_path_map":
+        m = d.source_path_map()
+        before = repr(m)
+        m["href"] = "static/" + m["href"]
+        m["source"] = "/somewhere/else"
+        m["extra"] = 1
+        return before
+    raise ValueError(what)
 
 SUBS = [
     ["ES", "div", True, [["id", "i"]], [T("a"), ["ES", "span", False, [], [T("b")]], D1]],
@@ -260,6 +275,15 @@ def make_fn_seq(table_fn, builder, key):
     return fn
 
 
+def build_dep_spec(spec):
+    if spec[0] == "DPATH":
+        # the sub-directory is given as a pathlib.Path (an os.PathLike) rather than a str
+        import pathlib
+        from htmltools import HTMLDependency
+        return HTMLDependency(spec[1], spec[2], source={"subdir": pathlib.Path(spec[3])}, script={"src": "p.js"})
+    return build(spec)
+
+
 def build_doc(spec):
     """spec = ["DOC", content_specs, attrs]"""
     from htmltools import HTMLDocument
@@ -276,7 +300,7 @@ DOCS = [
     ["DOC", [E("html", True, [], [["lang", "de"], ["class", "a"]])], [["lang", "en"], ["class_", "b"]]],
     ["DOC", [X1], [["data_x", True]]],
 ]
-DEPS = [D1, D2, D3, D4, ["D", "n", "0.1", {}],
+DEPS = [D1, D2, D3, D4, ["D", "n", "0.1", {}], ["DPATH", "pth", "1.0", "/nonexistent/hv-path-dir"],
         ["D", "s", "3.0.1", {"source": {"subdir": "/nonexistent/dir"}, "script": [{"src": "a b.js", "defer": ""}],
                              "stylesheet": {"href": "s.css"}, "all_files": True}]]
 
@@ -506,7 +530,7 @@ def plan(tier):
     n = 2 if tier == "quick" else 3
     fn_seq = make_fn_seq(_ops, build, "tree")
     fn_doc = make_fn_seq(lambda: DOC_OPS, build_doc, "doc")
-    fn_dep = make_fn_seq(lambda: DEP_OPS, build, "dep")
+    fn_dep = make_fn_seq(lambda: DEP_OPS, build_dep_spec, "dep")
     out = [
         dict(kind="space", name="readonly-sequences-trees", fn=fn_seq, execs=n,
              space=Prod(F, Seq(Const(names), 1, n)),
